@@ -104,7 +104,7 @@ CHECKS["C04"] = {
     "engine": "E1",
     "technique": "bounded exhaustive enumeration of ALL byte strings / line sequences over a structural alphabet as file content, real read/query/write/merge code with sanitizers as oracle",
     "level_text": "every byte string up to length n over {NL, blank, TAB, =, #, ;, quote, [, ], letter, NUL, 0xE9, backslash} and every file of up to m lines "
-                  "over ~48 adversarial lines (incl. 9000-byte lines) is read under all 63 delimiter x comment x option configurations and ten odd (delimiter, comment) "
+                  "over ~50 adversarial lines (incl. 9000-byte lines and a 300 000-byte value; all library calls run on a 192 KiB stack) is read under all 63 delimiter x comment x option configurations and ten odd (delimiter, comment) "
                   "pairs (blank/TAB as comment character, same character in both sets, brackets, quote or NL in a set); every successful "
                   "object goes through every listing, typed/defaulted/extended getter, write + re-read; all ordered pairs of distinct object shapes are merged; "
                   "oracle = termination, documented return code, no ASan/UBSan report",
@@ -114,11 +114,11 @@ CHECKS["C04"] = {
             "of objects with distinct listing shapes (groups/keys renamed by first occurrence, NULL-ness of values, empty sections)",
     "deadline": {"quick": 110, "thorough": 1500},
     "parts": [
-        {"name": "bytes", "harness": "c04", "variant": "asan", "quick": ["--p0", 0, "--p1", 4, "--p2", 5], "thorough": ["--p0", 0, "--p1", 5, "--p2", 6],
+        {"name": "bytes", "harness": "c04", "variant": "asan", "ldflags": ["-pthread"], "quick": ["--p0", 0, "--p1", 4, "--p2", 5], "thorough": ["--p0", 0, "--p1", 5, "--p2", 6],
          "deadline_share": 0.4, "floor": {"quick": 100000, "thorough": 1000000}},
-        {"name": "lines", "harness": "c04", "variant": "asan", "quick": ["--p0", 1, "--p1", 2, "--p2", 3, "--p3", 4], "thorough": ["--p0", 1, "--p1", 3, "--p2", 4, "--p3", 4],
+        {"name": "lines", "harness": "c04", "variant": "asan", "ldflags": ["-pthread"], "quick": ["--p0", 1, "--p1", 2, "--p2", 3, "--p3", 4], "thorough": ["--p0", 1, "--p1", 3, "--p2", 4, "--p3", 4],
          "deadline_share": 0.4, "floor": {"quick": 50000, "thorough": 1000000}},
-        {"name": "mergepairs", "harness": "c04", "variant": "asan", "quick": ["--p0", 2, "--p1", 3, "--p2", 4], "thorough": ["--p0", 2, "--p1", 4, "--p2", 5],
+        {"name": "mergepairs", "harness": "c04", "variant": "asan", "ldflags": ["-pthread"], "quick": ["--p0", 2, "--p1", 3, "--p2", 4], "thorough": ["--p0", 2, "--p1", 4, "--p2", 5],
          "deadline_share": 0.2, "floor": {"quick": 1000, "thorough": 10000}},
     ],
     "assumptions": ["bytes outside the 13-symbol structural alphabet behave like one of its members (letter / 8-bit byte)",
